@@ -15,12 +15,17 @@ CLAIMED = {
             "footprints), the order check-before-issue in generate_command_stream, Tensor.address_for_coordinate, publication of allocator totals as "
             "tensor shapes (DESIGN 3/C02 links L3, L5-L8). Tile boxes are required to have height_1 == height_0 (all compiler-built tile boxes do).",
             "contract-based deductive verification (symbolic execution of real AST + SMT, ghost-quantified footprint lemmas, loop invariants over heap maps)", "DESIGN.md 3/C02"),
-    "C04": ("Unbounded proof that conflict detection is exact: RangeSet.intersects (two-pointer loop invariant) and range_lists_overlap return True "
-            "iff two ranges share a byte, RangeSet.__or__ covers exactly the bytes of both operands; block-job geometry for BLOCKDEP: block "
-            "numbering of get_offset_block_coords and that the first-job IFM volume contains the receptive field of its OFM block (per accelerator).",
-            PYVC_NOTE + " get_wait_dependency, calc_blockdep's search loop, MemoryAccessSet and the hardware queue model are not yet under contract "
-            "in this revision; the hardware execution model is an axiom set (DESIGN 3/C04).",
-            "contract-based deductive verification (loop invariants, heap model, ghost permutation lemmas; bounded refutation for code leaving the subset)", "DESIGN.md 3/C04"),
+    "C04": ("Unbounded proof that conflict detection is exact (RangeSet.intersects two-pointer invariant, range_lists_overlap, RangeSet.__or__ covers "
+            "exactly the bytes of both operands); that get_wait_dependency, for DMA and kernel operations alike, returns the wait count naming the "
+            "NEWEST conflicting operation of the other queue, leaves nothing outstanding there that conflicts with the new operation, and bounds its "
+            "own queue by the hardware depth (loop invariants over the reverse scan and the pop loop, lists of object references, conflict relation "
+            "abstract); block-job geometry for BLOCKDEP (block numbering, previous-job OFM volume, first-job IFM volume contains the receptive field, "
+            "per accelerator class) and the search loops of calc_blockdep: if job f of this operation overlaps the b-th block from the end of the "
+            "previous one then BLOCKDEP <= f + b (suffix slice, geometry abstract).",
+            PYVC_NOTE + " Not under contract: MemoryRangeSet / MemoryAccessSet operations (dict comprehension over key unions), the prefix of "
+            "calc_blockdep (forced-zero cases, whole-tensor overlap), generate_cmd_waits and the issue order in generate_command_stream; the WAR/WAW "
+            "obligation between consecutive kernels (DESIGN D9) is not decided; the hardware execution model is an axiom set (DESIGN 3/C04).",
+            "contract-based deductive verification (loop invariants, heap model, ghost permutation lemmas, mechanical suffix slice; bounded refutation for changed code)", "DESIGN.md 3/C04, 7.2"),
     "C05": ("Unbounded proofs with loop invariants over a symbolic heap: GreedyAllocator.alloc keeps current_allocs sorted/disjoint, places the new "
             "range aligned and disjoint from every live entry and tracks memory_required exactly; HillClimb allocate_lr terminates (variant) "
             "and avoids every allocated neighbour; iteration bound / memory limit resolution of the constructor (slice). Remaining allocator "
@@ -49,8 +54,10 @@ CLAIMED = {
             "contract-based deductive verification (mechanical suffix slice, loop invariants, ghost fields, proof hints at the recording site)", "DESIGN.md 3/C08"),
     "C09": ("Unbounded proof, per function and per numeric argument type, that quantise_scale & co compute exactly the TFLite "
             "reference multiplier/shift (bit-exact IEEE-754 reasoning in z3 FloatingPoint + bit-vectors) and the stated error/range bounds; "
-            "average-pool divisor lemma per window-size class for all accumulators below 2**30; a forall-statement tests can only sample.",
-            PYVC_NOTE, "contract-based deductive verification (symbolic execution of real AST + SMT)", "DESIGN.md 3/C09"),
+            "average-pool divisor lemma per window-size class for all accumulators below 2**30; elementwise_mul_scale equals the quantised "
+            "double-precision real multiplier for every argument type that reaches it (general float products / quotients uninterpreted).",
+            PYVC_NOTE + " simplified_/advanced_elementwise_add_sub_scale: bounded witness only (z3 FloatingPoint did not decide them); the scale-selection "
+            "branches of the register generator are not under contract.", "contract-based deductive verification (symbolic execution of real AST + SMT)", "DESIGN.md 3/C09"),
     "C10": ("Unbounded proof that Box.transform_with_strides_and_skirt returns, for every OFM box, stride, skirt and IFM shape, exactly the receptive "
             "field clipped to the IFM (start and both vertical paddings exact; end covers it and stays inside the IFM), that the padding/skirt "
             "computation gives the SAME/VALID split with the trailing skirt covering the last window, and the rolling-buffer liveness lemma "
@@ -61,7 +68,8 @@ CLAIMED = {
     "C15": ("Unbounded proof, for each of the distinct SHRAM configurations / six accelerators (finite, exhaustive) and all shapes, kernels, bit depths "
             "and flags symbolic, that a layout returned by _try_block_config is ordered, non-overlapping, inside the bank count and that its "
             "IFM / accumulator partitions double-buffer the block at the bank granule; try_block_config accepts only positive multiples of the "
-            "micro-block within the maximum block and returns exactly that layout.",
+            "micro-block within the maximum block and returns exactly that layout; get_arch_block_config (the generator) requests that validation for "
+            "exactly the operation's own block, shapes, bit depth, traversal, kernel, LUT use, scalar/tensor second input and scaling (argument capture).",
             PYVC_NOTE + " float '/ 8' handled as exact dyadic arithmetic (exactness proved per operation); find_block_config search loop and the "
             "public query loop are not yet under contract in this revision.",
             "contract-based deductive verification (symbolic execution of real AST + SMT), per-accelerator instantiation", "DESIGN.md 3/C15"),
@@ -77,8 +85,10 @@ CLAIMED = {
             "contract-based deductive verification (recursive spec functions, mechanical slices) + labelled bounded stand-in for vela.main", "DESIGN.md 3/C18"),
     "C19": ("Unbounded proof that every fp_math helper equals the gemmlowp reference (written as mathematical functions on Z) for each integer "
             "type that reaches it from a call site, including NumPy fixed-width wrap-around semantics, all exponents/shifts exhaustively; "
-            "exp_on_negative_values proved equal to the reference composition.",
-            PYVC_NOTE + " LUT generators (convert_*_to_lut, optimise_quantize) are not yet under contract in this revision.",
+            "exp_on_negative_values proved equal to the reference composition; convert_lrelu_to_lut: 256 entries in input-code order, each the TFLite "
+            "reference LeakyReLU of its input code (loop invariant; multipliers and MultiplyByQuantizedMultiplier used by congruence).",
+            PYVC_NOTE + " convert_to_lut8 (sigmoid/tanh), hard-swish, optimise_quantize and the 16-bit tables are not under contract (convert_to_lut8 was "
+            "tried and left undecided by z3, so it is not registered).",
             "contract-based deductive verification (symbolic execution of real AST + SMT, nonlinear products abstracted soundly)", "DESIGN.md 3/C19"),
 }
 PLANNED = "claimed in DESIGN.md; its contracts are not built yet in this revision, so no check is registered"
